@@ -23,6 +23,8 @@ void h_bw_pwrite(void) { BufferWriter* w; const void* d; IN_STATE; size_t in_off
 void h_bw_write(void) { BufferWriter* w; const void* d; IN_STATE; size_t in_size; BufferWriter_write(w, d, in_size); VERIF_REACH(); }
 void h_sw_size(void) { StringWriter* w; IN_STATE; StringWriter_size(w); VERIF_REACH(); }
 void h_sw_write(void) { StringWriter* w; const void* d; IN_STATE; size_t in_size; StringWriter_write(w, d, in_size); VERIF_REACH(); }
+size_t g_zk;
+void h_sw_write_str(void) { StringWriter* w; const vstr* d; IN_STATE; size_t in_zk; g_zk = in_zk; StringWriter_write_str(w, d); VERIF_REACH(); }
 void h_sw_extend_to(void) { StringWriter* w; IN_STATE; size_t in_size; char in_v; StringWriter_extend_to(w, in_size, in_v); VERIF_REACH(); }
 void h_sw_extend_by(void) { StringWriter* w; IN_STATE; size_t in_size; char in_v; StringWriter_extend_by(w, in_size, in_v); VERIF_REACH(); }
 
